@@ -15,7 +15,9 @@
   `ttValid`, no quit flag, not premature).
 -/
 import Ptx.Proofs.TruthTable
+import Ptx.Proofs.Terminate
 import Ptx.Props.C01
+import Ptx.Props.C02
 namespace Ptx.Props.C03
 open Ptx
 
@@ -62,6 +64,48 @@ theorem C03_closed_implies_ttValid (L : LogicData) (hcore : L.soundCoreB = true)
     refine ⟨fun p hpp => ?_, ?_⟩
     · rw [hev p (hp.1 p hpp)]; exact hcx.1 p hpp
     · rw [hev _ hp.2]; exact hcx.2
+
+
+/-- truth-table validity excludes every countermodel among the logic's structures -/
+theorem ttValid_no_countermodel (L : LogicData) (hu : L.T.unassigned ∈ L.T.vals)
+    (arg : Argument) (hp : arg.isProp = true) (hv : ttValid L.T arg = true)
+    (M : Struct) (hM : M.Interp L) (e : Env M.D) (w0 : M.W) : ¬ Countermodel L M e w0 arg := by
+  intro hc
+  have h0 := (C03_ttValid_iff L.T hu arg).1 hv (fun a => M.atomV w0 a.1 a.2) (fun a => hM.vals.1 w0 a.1 a.2)
+  simp only [Argument.isProp, Bool.and_eq_true, List.all_eq_true] at hp
+  have : isCounterTT L.T arg (fun a => M.atomV w0 a.1 a.2) = true := by
+    simp only [isCounterTT, Bool.and_eq_true, List.all_eq_true, Bool.not_eq_true']
+    refine ⟨fun p hpp => ?_, ?_⟩
+    · rw [← eval_eq_evalTT e w0 p (hp.1 p hpp)]; exact hc.1 p hpp
+    · rw [← eval_eq_evalTT e w0 _ hp.2]; exact hc.2
+  rw [this] at h0; cases h0
+
+/-- Completeness half of the decision procedure, for every legal derivation: if the argument is
+    truth-table valid, no tableau reachable from its trunk has a saturated (ground) open branch — a
+    finished tableau of a truth-table-valid argument is closed.  (`_partial`: saturation of the
+    branch is a hypothesis, evaluated by the driver on the real final branches.) -/
+theorem C03_ttValid_implies_closed_partial (L : LogicData) (W : Weights)
+    (hcore : L.hintikkaCoreB = true) (hW : L.measureOKOnB RuleKey.notQuant W = true)
+    (hT : L.T.vals.contains .T = true) (hF : L.T.vals.contains .F = true) (htb : L.trunkBackB = true)
+    (arg : Argument) (hp : arg.isProp = true) (hv : ttValid L.T arg = true)
+    (t : Tableau) (hd : Deriv L (trunk L arg) t)
+    (b : Branch) (hb : b ∈ t) (hsat : L.saturatedB b = true) (hg : b.groundB L = true) : False := by
+  obtain ⟨hM, hc⟩ := Ptx.Props.C02.C02_countermodel_partial L W hcore hW hT hF htb arg t hd b hb hsat hg
+  have hTot : L.tablesTotalB = true := by
+    simp only [LogicData.hintikkaCoreB, Bool.and_eq_true] at hcore
+    exact hcore.1.1.1.1.1.1.1.1.1
+  exact ttValid_no_countermodel L (L.tables.closed_of_totalB _ _ _ hTot).una arg hp hv _ hM _ _ hc
+
+/-- Termination on the propositional fragment (restated from Ptx/Proofs/Terminate.lean): every
+    derivation that applies table rules to unticked nodes only (closure steps unrestricted) has
+    length at most `termBound` and never carries a limit flag.  `_partial`: the calculus model also
+    accepts re-applying a rule to a ticked node, which a scheduler never does. -/
+theorem C03_terminates_partial (L : LogicData) (W : Weights)
+    (hm : L.measureOKOnB RuleKey.isTF W = true) (hrows : L.tfRowsOKB = true)
+    (arg : Argument) (hp : arg.isProp = true) :
+    ∀ (t : Tableau) (steps : List Step), replayFresh L (trunk L arg) steps = some t →
+      steps.length ≤ termBound L W arg ∧ t.noQuit :=
+  Ptx.C03_terminates_partial L W hm hrows arg hp
 
 /-- strong-Kleene negation and disjunction, written out, for the non-vacuity example -/
 def T3 : Tables where
